@@ -82,10 +82,7 @@ ScmRepeat(P, insn, B, p, fwd, n) ==
 \* Case-insensitive comparison as the executors apply it to backreferences:
 \* fold_equals(c1, c2) == c1 = c2 \/ fold(c1) = fold(c2), fold being Canonicalize.
 FoldEq(c1, c2, uni, dev) ==
-  c1 = c2 \/ (IF "D8" \in dev /\ ~uni
-              THEN (IF c1 = 383 THEN 83 ELSE IF c1 = 305 THEN 73 ELSE LegacyCanon(c1))
-                   = (IF c2 = 383 THEN 83 ELSE IF c2 = 305 THEN 73 ELSE LegacyCanon(c2))
-              ELSE Canon(c1, TRUE, uni) = Canon(c2, TRUE, uni))
+  c1 = c2 \/ Canon(c1, TRUE, uni) = Canon(c2, TRUE, uni)
 
 RECURSIVE BackrefICase(_, _, _, _, _, _, _, _)
 \* Walk the captured range [rs, re) and the input in direction fwd, comparing folded
